@@ -248,11 +248,29 @@ def run(ctx, rep):
         for b in region(F, bs[0]):
             pf = ok.path_facts(b)
             for err in sorted(errs_):
-                for bi, s in agg_sites(b, "Error", err):
-                    f = pf.get(bi, TOP)
-                    held = [x[2].split(":")[-1] for x in (f or []) if x[0] == "flag" and x[1] is True]
-                    kf = kind_facts(f)
-                    tested = any(h in set_sites and (set_sites[h] == kf or not kf) for h in held)
+                for bi0, s in agg_sites(b, "Error", err):
+                    # the error is raised where it is wrapped in Err(..): the value may be built earlier and handed along
+                    raise_bis, frontier, seen_l = [], {s["d"]["l"]}, set()
+                    for _ in range(6):
+                        nxt = set()
+                        for bj, bl2 in enumerate(b.blocks):
+                            for s2 in bl2["s"]:
+                                if s2 is s or not any(op_local(o) in frontier for o in rv_operands(s2["rv"]) if isinstance(o, dict)):
+                                    continue
+                                if s2["rv"]["r"] == "agg" and s2["rv"].get("adt") == "std::result::Result" and s2["rv"].get("var") == "Err":
+                                    raise_bis.append(bj)
+                                elif s2["rv"]["r"] == "use" and not s2["d"]["p"] and s2["d"]["l"] not in seen_l:
+                                    nxt.add(s2["d"]["l"])
+                        seen_l |= frontier
+                        frontier = nxt
+                        if not frontier or raise_bis:
+                            break
+                    tested, held, f = True, [], None
+                    for bi in (raise_bis or [bi0]):
+                        f = pf.get(bi, TOP)
+                        held = [x[2].split(":")[-1] for x in (f or []) if x[0] == "flag" and x[1] is True]
+                        kf = kind_facts(f)
+                        tested = tested and any(h in set_sites and (set_sites[h] == kf or not kf) for h in held)
                     rep.check("C11.uniq", "%s: Error::%s raised where the flag of that block kind was already set" % (strip_generics(fn_path) or fn_path, err), tested, b.loc(s["sp"]), str(held), "facts: %s" % fact_str(f))
         rep.floor("C11.uniq", "flag updates in %s" % fn_path, n, 4)
     for err in list(pairs_expected.values()) + ["MultipleStreaminfo", "MissingStreaminfo"]:
